@@ -51,11 +51,16 @@ def split_waterfall_generator(waterfall_fn, fchans, tchans=None, f_shift=None):
         raise ValueError('tchans value must be less than the total number of \
                           time samples in the observation')
 
-    # Note that df is negative!
-    f_start, f_stop = fch1, fch1 + fchans * df
+    # Number of windows that fit entirely within the band, counted in channels
+    # so that floating point accumulation of frequencies cannot change it
+    # (not positive if fchans > nchans)
+    num_splits = (nchans - fchans) // f_shift + 1
 
-    # Iterates down frequencies, starting from highest
-    while np.abs(f_stop - fch1) <= np.abs(nchans * df):
+    # Iterates through file channels, starting from fch1 (highest frequency
+    # if df is negative)
+    for i in range(num_splits):
+        f_start = fch1 + (i * f_shift) * df
+        f_stop = fch1 + (i * f_shift + fchans) * df
         fmin, fmax = np.sort([f_start, f_stop])
         waterfall = Waterfall(waterfall_fn,
                               f_start=fmin,
@@ -64,9 +69,6 @@ def split_waterfall_generator(waterfall_fn, fchans, tchans=None, f_shift=None):
                               t_stop=tchans)
 
         yield waterfall
-
-        f_start += f_shift * df
-        f_stop += f_shift * df
 
 
 def split_fil(waterfall_fn, output_dir, fchans, tchans=None, f_shift=None):
